@@ -5,6 +5,7 @@ import (
 	"errors"
 	"go/ast"
 	"go/types"
+	"slices"
 	"strings"
 
 	"github.com/rs/zerolog"
@@ -65,17 +66,28 @@ func (p *Parser) ParsePackages(ctx context.Context, packageNames []string) ([]*c
 		if len(pkg.GoFiles) == 0 {
 			continue
 		}
-		for fileIdx, file := range pkg.GoFiles {
-			fileLog := pkgLog.With().Str("file", file).Logger()
-			fileLog.Debug().Msg("found file")
-			fileCtx := fileLog.WithContext(pkgCtx)
-
+		// pkg.Syntax holds one tree per entry of CompiledGoFiles. That list
+		// equals GoFiles unless a file imports "C": such a file is compiled
+		// from a generated copy, and further generated files are added.
+		for fileIdx, file := range pkg.CompiledGoFiles {
 			if fileIdx >= len(pkg.Syntax) {
 				// Files that are never compiled (package unsafe) have no syntax tree.
-				fileLog.Debug().Msg("no syntax tree for file, skipping")
+				pkgLog.Debug().Str("file", file).Msg("no syntax tree for file, skipping")
 				continue
 			}
 			fileSyntax := pkg.Syntax[fileIdx]
+			if !slices.Contains(pkg.GoFiles, file) {
+				// The generated copy of a cgo file names its source in a line
+				// directive; generated files without a source are skipped.
+				source := pkg.Fset.Position(fileSyntax.Package).Filename
+				if !slices.Contains(pkg.GoFiles, source) {
+					continue
+				}
+				file = source
+			}
+			fileLog := pkgLog.With().Str("file", file).Logger()
+			fileLog.Debug().Msg("found file")
+			fileCtx := fileLog.WithContext(pkgCtx)
 			nv := NewNodeVisitor(fileCtx)
 			ast.Walk(nv, fileSyntax)
 
